@@ -1078,6 +1078,11 @@ func coveredBy(rec writeRec, allowed map[string]writeRec) bool {
 			return true
 		}
 	}
+	for ak := range allowed {
+		if strings.HasPrefix(ak, "elems:") && strings.HasPrefix(strings.TrimLeft(rec.obj.name, "*"), strings.TrimPrefix(ak, "elems:")) {
+			return true
+		}
+	}
 	return false
 }
 
@@ -2821,7 +2826,8 @@ func (x *Exec) next(s *State, in *ssa.Next) {
 			ms := x.E.objVal(s, mv.Obj).(*MapStore)
 			kt := x.E.toTerm(s, kv, mv.K)
 			s.assume(Implies(okv, And(Not(mv.Nil), Select(ms.Dom, kt))))
-			vv = x.E.fromTerm(s, Select(ms.Val, kt), mv.V, regName(in)+".v")
+			// named like a lookup of that key, so that m[k] read later is the same object
+			vv = x.E.fromTerm(s, Select(ms.Val, kt), mv.V, fmt.Sprintf("%s[%s]", mv.Obj.name, kt))
 		}
 	}
 	if vv == nil {
